@@ -68,6 +68,94 @@ def merged_lookups(ctx, n):
             rm_dir(d)
 
 
+def trace_get_flight(ctx, n_stores: int):
+    """Validates what `harness/common/fidprog.py` read from `get_flight` / `_reindex` against the running code: real identified
+    stores (identifiers in random order, with repetitions) are queried for present, absent, smaller-than-all and larger-than-all
+    identifiers; the frame of `get_flight` is observed at its return: the position it computed must be the extracted bisect of the
+    table it read, the answer must follow the two guards, and the table must be the (identifier, store index) pairs sorted by
+    identifier with equal identifiers in store order (stable)."""
+    import bisect
+    import sys
+
+    from harness.common import fidprog
+    from harness.store_impl import RealStore, fresh_dir, rm_dir
+
+    sm = ctx.extra.setdefault('flight_lookup_trace', {'lookups': 0, 'mismatches': 0})
+    try:
+        P = fidprog.translate()[1]
+    except Exception:  # noqa: BLE001  (reported by ctx.proofs())
+        return sm
+    from AEIC.trajectories import TrajectoryStore
+
+    code = getattr(TrajectoryStore.get_flight, '__wrapped__', TrajectoryStore.get_flight).__code__
+    idp, ivar, ids_var = P['vars']
+    rng = ctx.rng
+    for k in range(n_stores):
+        d = fresh_dir()
+        try:
+            rs = RealStore(d, 's.nc')
+            rs.do(dict(op='create', file=True, cache_mb=50))
+            n = int(rng.integers(1, 9))
+            pool = [int(x) for x in rng.integers(-50, 50, size=n)]
+            if n > 2 and rng.random() < 0.5:
+                pool[-1] = pool[0]                       # a repeated identifier: the FIRST one added is the answer
+            for j, fid in enumerate(pool):
+                rs.do(dict(op='add', tag=j, npts=5, fid=fid))
+            if k % 2:
+                rs.do(dict(op='close'))
+                rs.do(dict(op='open_read', cache_mb=50))
+            obs = []
+
+            def local(frame, event, arg):
+                if event == 'return':
+                    loc = frame.f_locals
+                    if ids_var in loc:
+                        tid = next((v for kk, v in loc.items() if kk not in (ids_var, 'self') and hasattr(v, '__len__')
+                                    and not isinstance(v, (str, bytes)) and len(v) == len(loc[ids_var])), None)
+                        obs.append((loc.get(idp), loc.get(ivar), [int(x) for x in loc[ids_var]],
+                                    None if tid is None else [int(x) for x in tid], arg))
+                return local
+
+            old = sys.gettrace()
+            sys.settrace(lambda fr, ev, a: local if (ev == 'call' and fr.f_code is code) else None)
+            try:
+                for q in sorted(set(pool)) + [min(pool) - 3, max(pool) + 3, min(pool) + 1 if (min(pool) + 1) not in pool else max(pool) + 7]:
+                    try:
+                        rs.ts.get_flight(q)
+                    except Exception:  # noqa: BLE001
+                        pass
+            finally:
+                sys.settrace(old)
+            rs.close()
+            for q, pos, ids, tix, ans in obs:
+                sm['lookups'] += 1
+                ctx.evaluations += 1
+                want = (bisect.bisect_left if P['left'] else bisect.bisect_right)(ids, q)
+                found = want < len(ids) and ids[want] == q
+                problems = []
+                if pos != want:
+                    problems.append(f'position {pos}, the extracted bisect gives {want}')
+                if (ans is None) != (not found) and P['guard_len'] and P['guard_eq']:
+                    problems.append(f'answer {"None" if ans is None else "a trajectory"} although the identifier is {"" if found else "not "}in the table')
+                if ids != sorted(ids):
+                    problems.append('the identifier column is not sorted')
+                if tix is not None:
+                    exp = [i for i, _ in sorted(enumerate(pool), key=lambda x: x[1])]
+                    if tix != exp:
+                        problems.append(f'trajectory indexes {tix}, the stable sort of the identifiers in store order gives {exp}')
+                if problems:
+                    sm['mismatches'] += 1
+                    if sm['mismatches'] <= 3:
+                        ctx.diverge('flight lookup parameters read from the source vs TrajectoryStore.get_flight',
+                                    {'identifiers_in_store_order': pool, 'query': q, 'table_ids': ids, 'table_indexes': tix,
+                                     'parameters': {kk: P[kk] for kk in ('left', 'guard_len', 'guard_eq', 'shift')}}, '; '.join(problems))
+        except Exception as e:  # noqa: BLE001
+            ctx.diverge('flight lookup scenario', {'store': k}, f'{type(e).__name__}: {e}')
+        finally:
+            rm_dir(d)
+    return sm
+
+
 def main(ctx):
     ctx.proofs()
     aeic_setup()
@@ -86,6 +174,7 @@ def main(ctx):
     hs += ex
     check_histories(ctx, hs, OP_CLASS['C08'], 'get_flight_refines_dict', nontrivial, tag=' (C08)')
     merged_lookups(ctx, ctx.scale(quick=25, thorough=600))
+    trace_get_flight(ctx, ctx.scale(quick=16, thorough=300))
     return ctx.finish(RULE, TRUSTED, ASSUME)
 
 
